@@ -1,6 +1,7 @@
 package checks
 
 import (
+	"io"
 	"bytes"
 	"encoding/json"
 	"fmt"
@@ -145,7 +146,23 @@ func c06Validate(router routers.Router, header string, body []byte, opts *openap
 	if header != "" {
 		hdr.Set("Content-Type", header)
 	}
+	// the same bytes reach the validator the ways requests carry them: a client request made from a byte reader (length known,
+	// GetBody present), a client request made from any other reader (length unknown: 0 with a non-nil Body, or -1, no GetBody),
+	// a server-side request (length known, no GetBody)
+	c06Delivery++
+	mode := c06Delivery % 4
 	req := newReq("POST", "http://h.t/b", hdr, body)
+	if req != nil && body != nil && mode != 0 {
+		req.Body = io.NopCloser(bytes.NewReader(body))
+		req.GetBody = nil
+		switch mode {
+		case 1:
+			req.ContentLength = 0
+		case 2:
+			req.ContentLength = -1
+		}
+	}
+	c06Deliveries[mode]++
 	in, err := reqInput(router, req, shared)
 	if err != nil {
 		return fmt.Errorf("route: %w", err), nil
@@ -155,14 +172,58 @@ func c06Validate(router routers.Router, header string, body []byte, opts *openap
 	if Fingerprint(*shared) != fp && c06Modified == "" {
 		c06Modified = fmt.Sprintf("by POST /b with Content-Type %q: %+v", header, *shared)
 	}
+	// a request that is kept (it has no GetBody of its own: what validation put back is all there is) is validated again after
+	// the next request: it was sent with the same bytes, so it gets the same verdict
+	if k := c06Kept; k != nil && pi == nil {
+		var again error
+		if pi2 := core.Guard(func() { again = openapi3filter.ValidateRequest(bgCtx, k.in) }); pi2 == nil {
+			c06KeptChecked++
+			if (again == nil) != (k.verr == nil) && c06KeptViolation == "" {
+				left := "(unreadable)"
+				if k.in.Request.Body != nil {
+					if b, e := io.ReadAll(k.in.Request.Body); e == nil {
+						left = string(b)
+					}
+				}
+				c06KeptViolation = fmt.Sprintf("request sent with Content-Type %q and body %q: first verdict %v; validated again after another request (Content-Type %q, body %q) had been validated: %v; body left in the kept request: %q",
+					k.header, core.Truncate(string(k.body), 200), k.verr, header, core.Truncate(string(body), 200), again, core.Truncate(left, 200))
+			}
+		}
+	}
+	c06Kept = nil
+	if pi == nil && mode != 0 && body != nil {
+		c06Kept = &c06kept{in: in, verr: verr, header: header, body: body}
+	}
 	return verr, pi
 }
+
+type c06kept struct {
+	in     *openapi3filter.RequestValidationInput
+	verr   error
+	header string
+	body   []byte
+}
+
+var (
+	c06Delivery      int
+	c06Deliveries    [4]int
+	c06Kept          *c06kept
+	c06KeptChecked   int
+	c06KeptViolation string
+)
 
 // c06OptionsMonitor reports, at the end of the shard, a caller-owned Options value that validation changed.
 func c06OptionsMonitor(c *core.Ctx) {
 	c.CoverN("options", "distinct Options values shared by all requests of the shard", len(c06Shared))
 	if c06Modified != "" {
 		c.Violate(map[string]string{"kind": "caller_options_modified"}, c06Witness{Part: "options", Got: c06Modified}, "ValidateRequest changed the Options value the caller passed, "+c06Modified)
+	}
+	for i, n := range c06Deliveries {
+		c.CoverN("body_delivery", []string{"client request from a byte reader (GetBody, length known)", "stream, ContentLength 0 (unknown), no GetBody", "stream, ContentLength -1, no GetBody", "server-side request (length known, no GetBody)"}[i], n)
+	}
+	c.CoverN("kept_requests", "validated again after the next request", c06KeptChecked)
+	if c06KeptViolation != "" {
+		c.Violate(map[string]string{"kind": "kept_request_verdict_changed"}, c06Witness{Part: "kept-request", Got: c06KeptViolation}, c06KeptViolation)
 	}
 }
 
